@@ -28,7 +28,53 @@ def conv (kind : String) (L M : Nat) (h : Array Float) : Option (Rs Float) :=
   | "resampler" => some (Rs.init L M h)
   | _ => none
 
+/-- input the harness generates for the large cases (`xgen` in `harness/c08.cpp`): integer values in -9..9 times a
+scale, with alternating runs of `zrun` exact zeros when `zrun > 0` -/
+def xgen (a zrun : Nat) (scale : Float) (i : Nat) : Float :=
+  let v : Int := Int.ofNat ((i * i + 3 * i + a) % 19) - 9
+  let z : Int := if zrun > 0 ∧ (i / zrun) % 2 = 1 then 0 else v
+  Float.ofInt z * scale
+
+/-- digest of an output frame: length, first and last (up to) 8 samples, left-to-right sum -/
+def digest (y : Array Float) : String :=
+  let n := y.size
+  let k := min n 8
+  let sum := y.foldl (· + ·) (Float.ofNat 0)
+  String.intercalate " "
+    ([toString n, toString k] ++ ((y.extract 0 k).toList.map fmtF) ++ ((y.extract (n - k) n).toList.map fmtF) ++ [fmtF sum])
+
+/-- a history of generated frames: rejected frames neither consume input nor change the object -/
+def runBig (gen : Nat → Float) : Rs Float → Nat → List Nat → List String
+  | _, _, [] => []
+  | c, pos, n :: t =>
+    let x : Array Float := Array.ofFn (n := n) fun i => gen (pos + i.val)
+    match c.process x with
+    | .ok (c', y) => digest y :: runBig gen c' (pos + n) t
+    | .error _ => "ERR" :: runBig gen c pos t
+
 def h08 : List String → Option String
+  | "big" :: kind :: l :: m :: rest => do
+    let L ← l.toNat?; let M ← m.toNat?
+    let (h, rest) ← takeFloats rest
+    match rest with
+    | a :: zrun :: scale :: nf :: lens =>
+      let a ← a.toNat?; let zrun ← zrun.toNat?; let scale ← parseF scale; let nf ← nf.toNat?
+      let lens ← lens.mapM String.toNat?
+      if lens.length ≠ nf then none else
+      let c ← conv kind L M h
+      some (String.intercalate " " (s!"{c.delay} {c.interpRate} {c.decimRate}" :: runBig (xgen a zrun scale) c 0 lens))
+    | _ => none
+  | "bigres" :: p :: q :: rest => do
+    let p ← p.toNat?; let q ← q.toNat?
+    let (h, rest) ← takeFloats rest
+    match rest with
+    | [a, zrun, scale, len] =>
+      let a ← a.toNat?; let zrun ← zrun.toNat?; let scale ← parseF scale; let len ← len.toNat?
+      let x : Array Float := Array.ofFn (n := len) fun i => xgen a zrun scale i.val
+      match resample x p q h with
+      | .ok y => some (digest y)
+      | .error _ => some "ERR"
+    | _ => none
   | "poly" :: m :: fl :: gain :: rest => do
     let m ← m.toNat?
     let g ← parseF gain
